@@ -13,14 +13,14 @@ out=$(mktemp -d /tmp/liskcheck-benign-out.XXXXXX)
 one() {
   d=$1; name=$(echo "$d" | sed 's#benign/##; s#/#.#; s#\.diff$##')
   wt=$(mktemp -d /tmp/liskcheck-benign.XXXXXX)
-  git -C /repo worktree add -q --detach "$wt" HEAD || { echo "$name: cannot create worktree"; return; }
-  if ! git -C "$wt" apply "$PWD/$d" 2>/dev/null; then echo "$name: SKIP (does not apply to the current tree)"; git -C /repo worktree remove --force "$wt"; return; fi
-  if ! (cd "$wt" && go build ./... >/dev/null 2>&1); then echo "$name: SKIP (does not build)"; git -C /repo worktree remove --force "$wt"; return; fi
+  flock /tmp/liskcheck-wt.lock git -C /repo worktree add -q --detach "$wt" HEAD || { echo "$name: cannot create worktree"; return; }
+  if ! git -C "$wt" apply "$PWD/$d" 2>/dev/null; then echo "$name: SKIP (does not apply to the current tree)"; flock /tmp/liskcheck-wt.lock git -C /repo worktree remove --force "$wt"; return; fi
+  if ! (cd "$wt" && go build ./... >/dev/null 2>&1); then echo "$name: SKIP (does not build)"; flock /tmp/liskcheck-wt.lock git -C /repo worktree remove --force "$wt"; return; fi
   ev=$(mktemp -d /tmp/liskcheck-benign-ev.XXXXXX); mkdir -p "$ev/evidence"; cp known_findings.json "$ev/"
   bin/liskcheck -repo "$wt" -verif "$ev" -prop "$props" > "$out/$name.log" 2>&1
   v=$(grep -E "^VIOLATION|BROKEN" "$out/$name.log" | sed 's/ replay=.*//; s/VIOLATION property=//; s/: .*//' | tr '\n' ' ')
   if [ -n "$v" ]; then echo "$name: FALSE ALARM $v"; else echo "$name: silent"; fi
-  git -C /repo worktree remove --force "$wt"; rm -rf "$ev"
+  flock /tmp/liskcheck-wt.lock git -C /repo worktree remove --force "$wt"; rm -rf "$ev"
 }
 export -f one; export out props
 ls benign/$glob.diff | xargs -P "$par" -I{} bash -c 'one {}' | sort | tee "$out/SUMMARY.txt"
